@@ -55,7 +55,7 @@ func (c *Ctx) installValueBuiltins(ev *spec.Eval) {
 					t = smt.Concat(b.(*smt.Term), t)
 				}
 			}
-			r = smt.Resize(t, 8*w)
+			r = smt.Resize(smt.NormLow(t), 8*w)
 		}
 		return raw(r)
 	}
